@@ -93,6 +93,7 @@ class ServeModel(object):
         self.nwait = nwait
         self.with_bg = with_bg
         self.T = nwait + (1 if with_bg else 0)
+        self.gfields = self.scan_generic_fields(prog)
         self.R = nwait                      # requests 1..R
         self.bg_iters = bg_iters
         self.bg_nonblocking = (prog.serve_interval == 0)
@@ -100,8 +101,44 @@ class ServeModel(object):
         self.inputs = []
 
     # ---- state ------------------------------------------------------------------------
+    KNOWN_FIELDS = ("self._is_exc", "self._active", "self._obj", "self._is_ready")
+
+    def scan_generic_fields(self, prog):
+        """shared integer fields the encoded functions update with constants (counters, flags) that the model does not
+        know by name: each becomes a shared bit-vector variable; its initial value is read from the constructor"""
+        from rpyc.core.protocol import Connection
+        import inspect
+        import textwrap
+        found = {}
+        for l, n in prog.nodes.items():
+            st = n.ast
+            if n.kind != "stmt":
+                continue
+            tgt = None
+            if isinstance(st, ast.AugAssign) and isinstance(st.op, (ast.Add, ast.Sub)) and isinstance(st.value, ast.Constant) and type(st.value.value) is int:
+                tgt = st.target
+            elif isinstance(st, ast.Assign) and len(st.targets) == 1 and isinstance(st.value, ast.Constant) and type(st.value.value) in (int, bool):
+                tgt = st.targets[0]
+            if isinstance(tgt, ast.Attribute) and isinstance(tgt.value, ast.Name) and tgt.value.id == "self":
+                pth = "self." + tgt.attr
+                if pth not in self.KNOWN_FIELDS:
+                    found[pth] = 0
+        if found:
+            try:
+                tree = ast.parse(textwrap.dedent(inspect.getsource(Connection.__init__)))
+                for st in ast.walk(tree):
+                    if isinstance(st, ast.Assign) and len(st.targets) == 1 and isinstance(st.value, ast.Constant) and type(st.value.value) in (int, bool):
+                        tg = st.targets[0]
+                        if isinstance(tg, ast.Attribute) and isinstance(tg.value, ast.Name) and tg.value.id == "self" and "self." + tg.attr in found:
+                            found["self." + tg.attr] = int(st.value.value)
+            except (OSError, TypeError, SyntaxError):
+                pass
+        return found
+
     def init(self):
         v = {}
+        for g, v0 in self.gfields.items():
+            v["g:" + g] = bv(v0 % 16, 4)
         v["recvlock"] = z3.BoolVal(False)
         v["cvlock"] = z3.BoolVal(False)
         v["inlen"] = bv(0, IW)
@@ -209,11 +246,21 @@ class ServeModel(object):
             return S.v["data%d" % t] != 0
         if p == "wait_for_lock":
             return z3.BoolVal(True)               # every caller in the model passes the default
+        if p in self.gfields:
+            return S.v["g:" + p] != 0
         if isinstance(e, ast.Call):
             cp = path(e.func)
             if cp == "self._ttl.expired":
                 return z3.BoolVal(False)
             return None
+        if isinstance(e, ast.Compare) and len(e.ops) == 1 and isinstance(e.left, ast.Attribute) and path(e.left) in self.gfields and \
+                isinstance(e.comparators[0], ast.Constant) and type(e.comparators[0].value) in (int, bool):
+            gv, cv = S.v["g:" + path(e.left)], bv(int(e.comparators[0].value) % 16, 4)
+            op = e.ops[0]
+            tbl = {ast.Eq: lambda: gv == cv, ast.NotEq: lambda: gv != cv, ast.Gt: lambda: z3.UGT(gv, cv), ast.GtE: lambda: z3.UGE(gv, cv),
+                   ast.Lt: lambda: z3.ULT(gv, cv), ast.LtE: lambda: z3.ULE(gv, cv)}
+            if type(op) in tbl:
+                return tbl[type(op)]()
         if isinstance(e, ast.Compare) and len(e.ops) == 1:
             l, r = e.left, e.comparators[0]
             lp, rp = path(l) if isinstance(l, (ast.Attribute, ast.Name)) else None, path(r) if isinstance(r, (ast.Attribute, ast.Name)) else None
@@ -347,6 +394,19 @@ class ServeModel(object):
             if isinstance(s, ast.Delete) or isinstance(s, ast.Pass):
                 self.goto(Wk, S, t, nxt)
                 return T
+            if isinstance(s, ast.AugAssign) and isinstance(s.target, ast.Attribute) and path(s.target) in self.gfields:
+                g = "g:" + path(s.target)
+                cst = bv(int(s.value.value) % 16, 4)
+                new = S.v[g] + cst if isinstance(s.op, ast.Add) else S.v[g] - cst
+                # a counter leaving 0..15 is outside the model
+                Wk.set("err", True, (S.v[g] == 15) if isinstance(s.op, ast.Add) else z3.BoolVal(False))
+                Wk.set(g, new)
+                self.goto(Wk, S, t, nxt)
+                return T
+            if isinstance(s, ast.Assign) and isinstance(s.targets[0], ast.Attribute) and path(s.targets[0]) in self.gfields:
+                Wk.set("g:" + path(s.targets[0]), bv(int(s.value.value) % 16, 4))
+                self.goto(Wk, S, t, nxt)
+                return T
             if isinstance(s, ast.Assign):
                 tgt = s.targets[0]
                 tp = path(tgt) if isinstance(tgt, (ast.Name, ast.Attribute)) else None
@@ -466,7 +526,7 @@ class ServeModel(object):
             return s.value is None or isinstance(s.value, ast.Constant)
         if k == "branch":
             src = ast.dump(s)
-            return not any(w in src for w in ("_recvlock", "_is_ready", "_active", "expired"))
+            return not any(w in src for w in ("_recvlock", "_is_ready", "_active", "expired") + tuple(g.split(".", 1)[1] for g in self.gfields))
         if k == "stmt":
             if isinstance(s, (ast.Delete, ast.Pass)):
                 return True
